@@ -35,6 +35,68 @@ func types_TypeString(t types.Type) string {
 }
 
 func (g *Gen) contractFor(fn *ssa.Function) (*Contract, string) {
+	if c, ok := g.ctCache[fn]; ok {
+		return c.ct, c.key
+	}
+	ct, key := g.contractFor0(fn)
+	ct = g.withDefaults(fn, ct)
+	g.ctCache[fn] = ctEntry{ct, key}
+	return ct, key
+}
+
+type ctEntry struct {
+	ct  *Contract
+	key string
+}
+
+// withDefaults expands `//@ default nonnil T` into requires clauses on every
+// function of that package that has parameters (or a receiver) of type T.
+func (g *Gen) withDefaults(fn *ssa.Function, ct *Contract) *Contract {
+	if fn.Pkg == nil {
+		return ct
+	}
+	defs := g.cs.Defaults[fn.Pkg.Pkg.Path()]
+	if len(defs) == 0 {
+		return ct
+	}
+	var extra []*Clause
+	names := sigParamNames(fn.Signature, true)
+	var ts []types.Type
+	if r := fn.Signature.Recv(); r != nil {
+		ts = append(ts, r.Type())
+	}
+	for i := 0; i < fn.Signature.Params().Len(); i++ {
+		ts = append(ts, fn.Signature.Params().At(i).Type())
+	}
+	for i, t := range ts {
+		txt := types.TypeString(t, func(p *types.Package) string {
+			if p == fn.Pkg.Pkg {
+				return ""
+			}
+			return p.Name()
+		})
+		for _, d := range defs {
+			if d == txt || (strings.HasSuffix(d, ".*") && strings.HasPrefix(txt, strings.TrimSuffix(d, "*"))) {
+				text := names[i] + " != nil"
+				ex, _ := parseSpec(text)
+				extra = append(extra, &Clause{Kind: "requires", Text: text, Expr: ex})
+			}
+		}
+	}
+	if len(extra) == 0 {
+		return ct
+	}
+	var n Contract
+	if ct != nil {
+		n = *ct
+	} else {
+		n = Contract{Kind: "func", Key: methodKey(fn), Pkg: fn.Pkg.Pkg.Path(), PkgName: fn.Pkg.Pkg.Name(), Loops: map[int]*LoopSpec{}}
+	}
+	n.Requires = append(append([]*Clause{}, extra...), n.Requires...)
+	return &n
+}
+
+func (g *Gen) contractFor0(fn *ssa.Function) (*Contract, string) {
 	if fn.Pkg == nil {
 		// wrapper / synthetic: try the declared method
 		if fn.Object() != nil && fn.Object().Pkg() != nil {
@@ -253,10 +315,12 @@ func (fg *FuncGen) applyCall(cl *callee, args []Val, pos token.Pos, guard string
 			fg.note("assumed contract: %s %s", cl.ct.Kind, cl.ct.Key)
 		}
 	} else {
-		switch cl.kind {
-		case "extern":
+		switch {
+		case cl.kind == "iface" && !cl.inModule:
+			fg.note("external interface method %s: no contract; result unconstrained, memory reachable from pointer arguments havocked", cl.name)
+		case cl.kind == "extern":
 			fg.note("external %s: no contract; result unconstrained, memory reachable from pointer arguments havocked", cl.name)
-		case "func":
+		case cl.kind == "func":
 			fg.note("callee %s: no contract; inferred frame, result unconstrained", cl.name)
 		default:
 			fg.note("dynamic call %s: no contract; whole heap havocked", cl.name)
@@ -314,7 +378,20 @@ type frameItem struct {
 	ref  string // "" = whole component
 }
 
+func (g *Gen) expandFrame(items []string) []string {
+	var out []string
+	for _, it := range items {
+		if sub, ok := g.cs.Frames[it]; ok {
+			out = append(out, g.expandFrame(sub)...)
+		} else {
+			out = append(out, it)
+		}
+	}
+	return out
+}
+
 func (fg *FuncGen) frameItems(items []string, env *SpecEnv) (out []frameItem, all bool) {
+	items = fg.g.expandFrame(items)
 	for _, it := range items {
 		switch it {
 		case "nothing":
@@ -539,7 +616,7 @@ func (fg *FuncGen) havocForCall(cl *callee, args []Val, st, pre *State) {
 		}
 		fg.havocItems(fg.descItems(ms), st)
 		fg.bumpAlloc(st)
-	case cl.kind == "extern":
+	case cl.kind == "extern" || (cl.kind == "iface" && !cl.inModule):
 		// memory directly reachable from pointer-like arguments
 		var items []frameItem
 		for _, a := range args {
@@ -651,7 +728,7 @@ func (fg *FuncGen) callMods(c *ssa.CallCommon, ms *modSet) {
 		for _, it := range fg.descItems(m) {
 			ms.comps[it.comp.Name] = true
 		}
-	case cl.kind == "extern":
+	case cl.kind == "extern" || (cl.kind == "iface" && !cl.inModule):
 		for _, a := range c.Args {
 			switch u := a.Type().Underlying().(type) {
 			case *types.Pointer:
@@ -923,56 +1000,159 @@ func (fg *FuncGen) finishReturns() {
 			t := fg.trBool(en.Expr, env)
 			fg.oblige("post", en.Text, t, en.Props, en.Text)
 		}
-		if fg.ct.HasMod {
-			fg.frameObligations(st)
+		if ict, names := fg.implemented(); ict != nil {
+			ienv := fg.implEnv(st, fg.entry, names)
+			ienv.results = results
+			if p := fg.g.pkgByPath(ict.Pkg); p != nil {
+				ienv.pkg = p
+			}
+			for _, en := range ict.Ensures {
+				t := fg.trBool(en.Expr, ienv)
+				fg.oblige("post", "["+fg.ct.Implements+"] "+en.Text, t, append(append([]string{}, en.Props...), fg.props...), en.Text)
+			}
 		}
+		fg.frameObligations(st)
 	}
 	fg.objInvObligations(st)
+}
+
+// frameSpec: the declared frame of the function under verification (its own modifies
+// clause and that of the functype/interface method it implements), evaluated at entry.
+type frameSpec struct {
+	all     bool
+	whole   map[string]bool
+	allowed map[string][]string
+	tags    []string
+}
+
+func (fg *FuncGen) getFrameSpec() *frameSpec {
+	if fg.fspec != nil {
+		return fg.fspec
+	}
+	fs := &frameSpec{whole: map[string]bool{}, allowed: map[string][]string{}}
+	fg.fspec = fs
+	if fg.ct == nil {
+		fs.all = true
+		return fs
+	}
+	var sets [][]frameItem
+	any := false
+	if fg.ct.HasMod {
+		env := fg.ownEnv(fg.entry, fg.entry)
+		items, all := fg.frameItems(fg.ct.Modifies, env)
+		if all {
+			fs.all = true
+		}
+		sets = append(sets, items)
+		any = true
+	}
+	if ict, names := fg.implemented(); ict != nil && ict.HasMod {
+		penv := fg.implEnv(fg.entry, fg.entry, names)
+		if p := fg.g.pkgByPath(ict.Pkg); p != nil {
+			penv.pkg = p
+		}
+		items, all := fg.frameItems(ict.Modifies, penv)
+		if all && !any {
+			fs.all = true
+		}
+		if !all {
+			if any {
+				// both frames must be respected: intersect at component level (keep the stricter)
+				sets = [][]frameItem{intersectItems(sets[0], items)}
+			} else {
+				sets = append(sets, items)
+			}
+		}
+		any = true
+	}
+	if !any {
+		fs.all = true
+		return fs
+	}
+	for _, items := range sets {
+		for _, it := range items {
+			if it.ref == "" {
+				fs.whole[it.comp.Name] = true
+			} else {
+				fs.allowed[it.comp.Name] = append(fs.allowed[it.comp.Name], it.ref)
+			}
+		}
+	}
+	return fs
+}
+
+func intersectItems(a, b []frameItem) []frameItem {
+	inB := map[string]bool{}
+	wholeB := map[string]bool{}
+	for _, it := range b {
+		if it.ref == "" {
+			wholeB[it.comp.Name] = true
+		}
+		inB[it.comp.Name+"|"+it.ref] = true
+	}
+	var out []frameItem
+	for _, it := range a {
+		if wholeB[it.comp.Name] || inB[it.comp.Name+"|"+it.ref] {
+			out = append(out, it)
+		}
+	}
+	wholeA := map[string]bool{}
+	for _, it := range a {
+		if it.ref == "" {
+			wholeA[it.comp.Name] = true
+		}
+	}
+	for _, it := range b {
+		if wholeA[it.comp.Name] && it.ref != "" {
+			out = append(out, it)
+		}
+	}
+	return out
+}
+
+// frameFormula: component cn is unchanged since entry on every pre-existing object outside
+// the declared frame ("" when the whole component may be written or no frame is declared).
+func (fg *FuncGen) frameFormula(st *State, cn string) string {
+	fs := fg.getFrameSpec()
+	if fs.all || fs.whole[cn] {
+		return ""
+	}
+	c := fg.comps[cn]
+	if c == nil {
+		return ""
+	}
+	cur := fg.get(st, c)
+	old := fg.get(fg.entry, c)
+	if cur == old {
+		return ""
+	}
+	if c.Kind == "global" {
+		return fmt.Sprintf("(= %s %s)", cur, old)
+	}
+	var excl []string
+	for _, r := range fs.allowed[cn] {
+		excl = append(excl, fmt.Sprintf("(not (= r %s))", r))
+	}
+	fg.enc.usesQuant = true
+	a0 := fg.allocTerm(fg.entry)
+	return fmt.Sprintf("(forall ((r Int)) (! (=> (and (< r %s) %s) (= (select %s r) (select %s r))) :pattern ((select %s r))))", a0, and(excl...), cur, old, cur)
 }
 
 // frameObligations: everything outside the declared frame is unchanged for objects
 // that existed at entry.
 func (fg *FuncGen) frameObligations(st *State) {
-	env := fg.ownEnv(fg.entry, fg.entry)
-	items, all := fg.frameItems(fg.ct.Modifies, env)
-	if all {
+	fs := fg.getFrameSpec()
+	if fs.all {
 		return
 	}
 	if st.epoch != 0 {
 		fg.oblige("frame", "whole heap havocked by an uncontracted call", "false", fg.ct.Props, "modifies")
 		return
 	}
-	allowed := map[string][]string{}
-	whole := map[string]bool{}
-	for _, it := range items {
-		if it.ref == "" {
-			whole[it.comp.Name] = true
-		} else {
-			allowed[it.comp.Name] = append(allowed[it.comp.Name], it.ref)
-		}
-	}
-	a0 := fg.allocTerm(fg.entry)
 	for _, cn := range sortedKeys(st.heap) {
-		c := fg.comps[cn]
-		if whole[cn] || c.Kind == "global" && false {
-			continue
+		if f := fg.frameFormula(st, cn); f != "" {
+			fg.oblige("frame", cn+" unchanged outside the declared frame", f, fg.ct.Props, "modifies")
 		}
-		cur := st.heap[cn]
-		old := fg.get(fg.entry, c)
-		if cur == old {
-			continue
-		}
-		if c.Kind == "global" {
-			fg.oblige("frame", cn+" unchanged", fmt.Sprintf("(= %s %s)", cur, old), fg.ct.Props, "modifies")
-			continue
-		}
-		var excl []string
-		for _, r := range allowed[cn] {
-			excl = append(excl, fmt.Sprintf("(not (= r %s))", r))
-		}
-		fg.enc.usesQuant = true
-		goal := fmt.Sprintf("(forall ((r Int)) (=> (and (< r %s) %s) (= (select %s r) (select %s r))))", a0, and(excl...), cur, old)
-		fg.oblige("frame", cn+" unchanged outside the declared frame", goal, fg.ct.Props, "modifies")
 	}
 }
 
@@ -1047,4 +1227,114 @@ func (fg *FuncGen) objInvObligations(st *State) {
 		goal := implies(fmt.Sprintf("(not (= %s 0))", tv.T), fg.invTerm(ct, tv.Typ, tv.T, st))
 		fg.oblige("objinv", ct.Key+" "+tv.what, goal, ct.Props, "invariant")
 	}
+}
+
+// ---- ghost fields and immutable fields ------------------------------------------------------
+
+func (fg *FuncGen) structContract(st types.Type) *Contract {
+	n, ok := st.(*types.Named)
+	if !ok || n.Obj().Pkg() == nil {
+		return nil
+	}
+	return fg.g.cs.ByKey["struct "+n.Obj().Pkg().Path()+" "+n.Obj().Name()]
+}
+
+func (fg *FuncGen) ghostComp(st types.Type, gf *GhostField, ct *Contract) *Comp {
+	t := fg.g.resolveType(gf.Type, fg.g.pkgByPath(ct.Pkg))
+	name := fmt.Sprintf("H_%s.$%s", shortType(st), gf.Name)
+	c := fg.comp(name, fmt.Sprintf("(Array Int %s)", fg.enc.sortOf(t)), "field")
+	c.Typ = t
+	return c
+}
+
+// fieldStored is called after a store to field `field` of the object ref of struct type st
+// (field == "" means every field, e.g. allocation or whole-struct assignment).
+func (fg *FuncGen) fieldStored(st types.Type, ref, field string, isAlloc bool, pos token.Pos) {
+	ct := fg.structContract(st)
+	if ct == nil {
+		return
+	}
+	if !isAlloc {
+		for _, im := range ct.Immutable {
+			if field == "" || field == im {
+				key := "imm|" + ref + "|" + im
+				if fg.invAssumed[key] {
+					continue
+				}
+				fg.invAssumed[key] = true
+				fg.oblige("immutable", fmt.Sprintf("%s.%s is written only on fresh objects: %s", ct.Key, im, fg.g.srcText(pos, "any")),
+					fmt.Sprintf("(>= %s %s)", ref, fg.allocTerm(fg.entry)), ct.Props, "immutable "+im)
+			}
+		}
+	}
+	for _, gf := range ct.Ghosts {
+		hit := field == ""
+		for _, on := range gf.On {
+			if on == field {
+				hit = true
+			}
+		}
+		if !hit {
+			continue
+		}
+		c := fg.ghostComp(st, gf, ct)
+		env := &SpecEnv{st: fg.cur, old: fg.cur, vars: map[string]Val{"self": {T: ref, Typ: types.NewPointer(st)}}, pkg: fg.g.pkgByPath(ct.Pkg),
+			preAlloc: fg.allocTerm(fg.entry), what: "ghost field " + ct.Key + "." + gf.Name}
+		var v Val
+		func() {
+			defer func() {
+				if r := recover(); r != nil {
+					if se, ok := r.(specError); ok {
+						fg.g.bindErrors = append(fg.g.bindErrors, se.msg)
+						v = fg.freshVal("ghosterr", c.Typ)
+						return
+					}
+					panic(r)
+				}
+			}()
+			v = fg.tr(gf.Expr, env, c.Typ)
+		}()
+		fg.set(fg.cur, c, fmt.Sprintf("(store %s %s %s)", fg.get(fg.cur, c), ref, v.T))
+	}
+}
+
+// implemented returns the functype / interface-method contract this function declares to
+// satisfy (`//@ implements pkg.FuncType` or `pkg.Iface.Method`) and the positional renaming of
+// its parameter names.
+func (fg *FuncGen) implemented() (*Contract, []string) {
+	if fg.ct == nil || fg.ct.Implements == "" {
+		return nil, nil
+	}
+	parts := strings.Split(fg.ct.Implements, ".")
+	p := fg.g.importedPkg(fg.fn.Pkg.Pkg, parts[0])
+	if p == nil && parts[0] == fg.fn.Pkg.Pkg.Name() {
+		p = fg.fn.Pkg.Pkg
+	}
+	if p == nil {
+		fg.g.bindErrors = append(fg.g.bindErrors, "implements: unknown package in "+fg.ct.Implements)
+		return nil, nil
+	}
+	var ct *Contract
+	if len(parts) == 2 {
+		ct = fg.g.cs.ByKey["functype "+p.Path()+" "+parts[1]]
+	} else if len(parts) == 3 {
+		ct = fg.g.cs.ByKey["iface "+p.Path()+" "+parts[1]+"."+parts[2]]
+	}
+	if ct == nil {
+		fg.g.bindErrors = append(fg.g.bindErrors, "implements: no contract "+fg.ct.Implements)
+		return nil, nil
+	}
+	_, names := fg.g.contractSig(ct)
+	return ct, names
+}
+
+func (fg *FuncGen) implEnv(st, old *State, names []string) *SpecEnv {
+	env := fg.ownEnv(st, old)
+	own := sigParamNames(fg.fn.Signature, true)
+	for i, n := range names {
+		if i < len(own) {
+			env.vars[n] = fg.paramVals[own[i]]
+		}
+	}
+	return env
 }
